@@ -248,3 +248,19 @@ impl Default for Map64 {
         Self::new()
     }
 }
+
+/// Forwarders for the external verification harnesses (see `crate::verif_hooks`). One call each, no logic.
+#[cfg(any(kani, mmtk_verif))]
+pub mod verif_hooks {
+    pub use super::Map64;
+    use super::*;
+    pub fn space_index(addr: Address) -> Option<usize> {
+        Map64::space_index(addr)
+    }
+    pub fn is_space_start(base: Address) -> bool {
+        Map64::is_space_start(base)
+    }
+    pub fn descriptor_map_len(m: &Map64) -> usize {
+        m.inner().descriptor_map.len()
+    }
+}
